@@ -606,6 +606,32 @@ func (w *watch) watch(fsw *fsnotify.Watcher, m *sync.Mutex, refresh func() error
 	}
 }
 
+// Add a watch for the given directory, making sure that we end up watching
+// what the directory path refers to once the watch is in place. If the
+// directory gets removed, renamed or replaced while the watch is being added,
+// we might end up watching a directory which is not there any more, without
+// ever getting an event about it.
+func (w *watch) addWatch(dir string) error {
+	before, err := os.Stat(dir)
+	if err != nil {
+		return err
+	}
+	// We are not supposed to be watching dir. Make sure the watcher agrees,
+	// otherwise it reports events for the new watch without a proper name.
+	_ = w.watcher.Remove(dir)
+	if err = w.watcher.Add(dir); err != nil {
+		return err
+	}
+	after, err := os.Stat(dir)
+	if err == nil && !os.SameFile(before, after) {
+		err = fmt.Errorf("directory %s changed while adding watch", dir)
+	}
+	if err != nil {
+		_ = w.watcher.Remove(dir)
+	}
+	return err
+}
+
 // Update watch with pending/missing or removed directories.
 func (w *watch) update(dirErrors map[string]error, removed ...string) bool {
 	var (
@@ -628,7 +654,7 @@ func (w *watch) update(dirErrors map[string]error, removed ...string) bool {
 			continue
 		}
 
-		err = w.watcher.Add(dir)
+		err = w.addWatch(dir)
 		if err == nil {
 			w.tracked[dir] = true
 			delete(dirErrors, dir)
